@@ -394,6 +394,9 @@ func checkC15(run *mon.Run, rng *mon.Rand, thorough bool) {
 	for _, vn := range names {
 		c.scriptedLateRelay(vn, c15PowerVectors[vn])
 		c.scriptedHarvestedSignatures(vn, c15PowerVectors[vn])
+		if vn == names[0] {
+			c.scriptedUnconfiguredClient()
+		}
 	}
 	rounds := pick(thorough, 8, 60)
 	perRound := pick(thorough, 60, 150)
@@ -464,6 +467,48 @@ func checkC15(run *mon.Run, rng *mon.Rand, thorough bool) {
 	run.Extra["power_vectors"] = names
 }
 
+// scriptedUnconfiguredClient: while the chain has no configured L1 light client (no bridge info yet, or bridge info
+// without a client id) no client's validator set may be recorded: "the configured L1 light client" is then nobody.
+func (c *c15) scriptedUnconfiguredClient() {
+	run := c.run
+	for _, start := range []string{"no bridge info", "bridge info without a client id"} {
+		e := newL2Env(L2EnvOpts{NoBridgeInfo: true})
+		l2 := e.L2
+		var log []string
+		if start == "bridge info without a client id" {
+			r := l2.Deliver(opchildtypes.NewMsgSetBridgeInfo(e.Executors[0].String(), e.BridgeInfo("", true)))
+			log = append(log, fmt.Sprintf("set_bridge_info without client id -> %s", r.Class))
+		}
+		recorded := func() (int64, int) {
+			h, err := l2.K.HostValidatorStore.GetLastHeight(l2.Ctx)
+			if err != nil {
+				h = 0
+			}
+			vals, _ := l2.K.HostValidatorStore.GetAllValidators(l2.Ctx)
+			return h, len(vals)
+		}
+		foreign := newHostVals([]int64{5, 5, 5}, 4242)
+		for _, client := range []string{"07-tendermint-9", "", "07-tendermint-0"} {
+			err := l2.K.UpdateHostValidatorSet(l2.Ctx, client, 1_000_000, cmtValSet(foreign))
+			h, n := recorded()
+			run.Evaluations++
+			log = append(log, fmt.Sprintf("%s: validator set of client %q at height 1000000 offered -> err=%v; recorded height %d, %d validators", start, client, err, h, n))
+			run.Check("C15.host_set_only_replaced_by_higher_height_from_client", n == 0 && h == 0, "c15.host_set_recorded_without_configured_client", log, "%s: the validator set of client %q was recorded although no L1 light client is configured", start, client)
+		}
+		// the client gets configured; its sets are recorded from then on, even at heights below what strangers offered
+		r := l2.Deliver(opchildtypes.NewMsgSetBridgeInfo(e.Executors[0].String(), e.BridgeInfo("07-tendermint-0", true)))
+		log = append(log, fmt.Sprintf("set_bridge_info client 07-tendermint-0 -> %s %s", r.Class, r.ErrString()))
+		real := newHostVals([]int64{7, 7, 7}, 77)
+		err := l2.K.UpdateHostValidatorSet(l2.Ctx, "07-tendermint-0", 50, cmtValSet(real))
+		h, n := recorded()
+		log = append(log, fmt.Sprintf("validator set of the configured client at height 50 -> err=%v; recorded height %d, %d validators", err, h, n))
+		if r.Class == sim.OK {
+			run.Check("C15.host_set_only_replaced_by_higher_height_from_client", err == nil && h == 50 && n == 3, "c15.configured_client_set_not_recorded", log, "the configured client's validator set (height 50) was not recorded: height %d, %d validators", h, n)
+		}
+		run.Distinct("scripted-unconfigured-client/" + start)
+	}
+}
+
 // scriptedHarvestedSignatures: (1) a genuine, complete commit for (height, round) is accepted; (2) the executor submits
 // another commit for the same height and round that carries the very same signatures, now attached to extensions with
 // other prices and a newer timestamp. A signature is valid only over the extension it was given for.
@@ -530,9 +575,37 @@ func (c *c15) hostRefresh(o *OracleEnv, rng *mon.Rand, log *[]string) {
 		powers[i] = 1 + int64(rng.Intn(50))
 	}
 	nv := newHostVals(powers, gen)
-	err := l2.K.UpdateHostValidatorSet(l2.Ctx, client, height, cmtValSet(nv))
+	if rng.Chance(40) && len(o.Host) > 2 {
+		// the new set overlaps the recorded one: some validators stay (same key, new power), some leave, some join
+		keep := 1 + rng.Intn(len(o.Host)-1)
+		for i := 0; i < keep && i < len(nv); i++ {
+			nv[i] = o.Host[i]
+			nv[i].Power = powers[i]
+		}
+	}
+	vs := cmtValSet(nv)
+	addrMode := mon.Pick(rng, []string{"honest", "honest", "empty", "rotated", "of-recorded-set"})
+	for i, v := range vs.Validators {
+		// the address field of an entry is redundant (it follows from the public key) and supplied by the caller
+		switch addrMode {
+		case "empty":
+			v.Address = nil
+		case "rotated":
+			v.Address = nv[(i+1)%len(nv)].Addr()
+		case "of-recorded-set":
+			v.Address = o.Host[i%len(o.Host)].Addr()
+		}
+	}
+	err := l2.K.UpdateHostValidatorSet(l2.Ctx, client, height, vs)
 	run.Evaluations++
 	hAfter, setAfter := o.HostSetState()
+	if err == nil && client == o.ClientID && height > hBefore {
+		want := map[string]int64{}
+		for _, v := range nv {
+			want[fmt.Sprintf("%X", v.Addr())] = v.Power
+		}
+		run.Check("C15.host_set_only_replaced_by_higher_height_from_client", setString(setAfter) == setString(want), "c15.host_set_not_the_refreshed_one", tail(append(*log, fmt.Sprintf("host_set_refresh client=%q height=%d address fields %s", client, height, addrMode)), 15), "after a refresh (address fields of the entries: %s) the recorded set is {%s}, the refreshed set is {%s}", addrMode, setString(setAfter), setString(want))
+	}
 	*log = append(*log, fmt.Sprintf("host_set_refresh client=%q height=%d (stored %d) -> err=%v stored now %d", client, height, hBefore, err, hAfter))
 	replaced := setString(setBefore) != setString(setAfter) || hBefore != hAfter
 	if replaced {
